@@ -138,7 +138,10 @@ def replace_unit(ctx, src):
                body_prefix=' g_it = 0; ',
                rules=[R(r'\bstrlen\(', 'c8_strlen(', 2), L('string ret;', ''), SIZES[0], NPOS,
                       R(r'size_t (\w+) = s\.find\((\w+), (\w+), (\w+)\);', GH),
-                      R(r'\bs\.data\(\)', 's->data', '+'), R(r'\bret\.append\(', 'c8_append(ret, ', '+'), L('return ret;', 'return;')],
+                      R(r'\bs\.data\(\)', 's->data', None), R(r'\bs\.c_str\(\)', 'c8_cstr(s)', None),
+                      # append(p, n) vs append(p) (C string: up to the first NUL)
+                      Rule(r'\bret\.append\(([^;]*)\);', lambda mo: ('c8_append(ret, %s);' if _top_comma(mo.group(1)) else 'c8_append_cstr(ret, %s);') % mo.group(1), count='+', regex=True),
+                      L('return ret;', 'return;')],
                nloops=1, loops={1: REPLACE_LOOP})
     return u
 
@@ -266,6 +269,18 @@ def comments_unit(ctx, src):
                         r'for (size_t z = 0; \1; c8_cmt_check(s, z, write_offset, is_in_comment)) { CMT_SNAPSHOT(s, z, write_offset, is_in_comment)')],
                nloops=1, loops={1: COMMENTS_LOOP})
     return u
+
+
+def _top_comma(s):
+    d = 0
+    for ch in s:
+        if ch in '([':
+            d += 1
+        elif ch in ')]':
+            d -= 1
+        elif ch == ',' and d == 0:
+            return True
+    return False
 
 
 def plan(ctx):
